@@ -610,4 +610,218 @@ def geometryValidateInstance (tbl : Table) (mode : Mode) (inst : Cls × Obj) : R
     | none => bad
     | some c => classValidateInstance c (mode = .attributes) inst
 
+/-- an existing geometry instance handed to a field annotated with the union (`SoundEvent(geometry=g)`):
+    pydantic returns an instance of a member class as it is; an instance of no member is refused
+    (python mode reads no attributes) -/
+def unionValidateInstance (members : List Cls) (inst : Cls × Obj) : R Obj :=
+  if members.contains inst.1 then .ok inst.2 else bad
+
+/-! ### Attribute objects: where Python finds an attribute
+
+    `geometry_validate(obj, mode="attributes")` reads `obj.type` and – through pydantic's
+    `from_attributes` – `obj.coordinates` with `getattr`.  Python's lookup order: a *data descriptor* of
+    the class (a `property`, a `__slots__` member, a named-tuple field) first, then the instance
+    `__dict__`, then a plain class attribute, then `__getattr__`.  An attribute object is described by
+    where each of the two names lives. -/
+
+/-- what the class namespace holds under a name -/
+inductive ClsAttr (α : Type)
+  | plain (v : α)            -- `type = "Point"` in the class body
+  | data (v : Option α)      -- a data descriptor and what its getter returns (`none`: it raises
+                             -- `AttributeError` – a slot that was never assigned)
+  deriving Repr
+
+/-- the places one attribute name can live in -/
+structure Where (α : Type) where
+  inst : Option α := none            -- entry of the instance `__dict__` (what `vars(obj)` shows)
+  cls : Option (ClsAttr α) := none   -- entry of the class namespace
+  dyn : Option α := none             -- answer of `__getattr__`
+  deriving Repr
+
+/-- `getattr(obj, name)` (`none`: `AttributeError`) -/
+def Where.get {α} (w : Where α) : Option α :=
+  match w.cls with
+  | some (.data (some v)) => some v
+  | some (.data none) => w.dyn
+  | some (.plain v) => (match w.inst with | some x => some x | none => some v)
+  | none => (match w.inst with | some x => some x | none => w.dyn)
+
+/-- an attribute object, as far as the two names the entry point reads are concerned -/
+structure AttrObj where
+  type : Where String
+  coordinates : Where Raw
+
+/-- what `geometry_validate` is handed: the object seen through `getattr` -/
+def PyObj.ofAttrObj (o : AttrObj) : PyObj := .attrs o.type.get o.coordinates.get
+
+/-- the (wrong) reading `dict(vars(obj))`: the instance `__dict__` only -/
+def PyObj.ofVars (o : AttrObj) : PyObj := .attrs o.type.inst o.coordinates.inst
+
+/-- ways of carrying a tag and coordinates as attributes -/
+inductive Carrier
+  | namespace      -- `SimpleNamespace`, a plain class with instance attributes, an ordinary dataclass
+  | classType      -- `type` in the class body, `coordinates` on the instance
+  | classBoth      -- both in the class body
+  | property       -- read-only properties over private fields (an ORM-like row)
+  | slots          -- `__slots__`, `dataclass(slots=True)`, named-tuple fields
+  | getattr        -- answered by `__getattr__`
+  | shadowed (other : String)       -- class body says `other`, the instance attribute overrides it
+  | propShadow (other : String)     -- a property; the instance `__dict__` holds `other` (ignored)
+  deriving Repr
+
+def Carrier.make (k : Carrier) (t : String) (r : Raw) : AttrObj :=
+  match k with
+  | .namespace => ⟨{ inst := some t }, { inst := some r }⟩
+  | .classType => ⟨{ cls := some (.plain t) }, { inst := some r }⟩
+  | .classBoth => ⟨{ cls := some (.plain t) }, { cls := some (.plain r) }⟩
+  | .property => ⟨{ cls := some (.data (some t)) }, { cls := some (.data (some r)) }⟩
+  | .slots => ⟨{ cls := some (.data (some t)) }, { cls := some (.data (some r)) }⟩
+  | .getattr => ⟨{ dyn := some t }, { dyn := some r }⟩
+  | .shadowed other => ⟨{ inst := some t, cls := some (.plain other) }, { inst := some r }⟩
+  | .propShadow other => ⟨{ inst := some other, cls := some (.data (some t)) }, { cls := some (.data (some r)) }⟩
+
+/-! ### Call signatures: how Python binds positional and keyword arguments -/
+
+inductive PKind
+  | posOnly | posOrKw | kwOnly
+  deriving DecidableEq, Repr
+
+/-- a parameter: name, kind, default (a string constant; `none`: required) -/
+structure Param where
+  name : String
+  kind : PKind
+  dflt : Option String
+  deriving DecidableEq, Repr
+
+abbrev Sig := List Param
+
+/-- an argument value: something the caller passed, or a default of the signature -/
+inductive Arg (α : Type)
+  | given (a : α)
+  | dflt (s : String)
+  deriving Repr
+
+/-- positional arguments fill the positional parameters in order (`none`: `TypeError`, too many);
+    returns the bindings and the parameters still unbound -/
+def bindPos {α} : Sig → List α → Option (List (String × Arg α) × Sig)
+  | ps, [] => some ([], ps)
+  | [], _ :: _ => none
+  | p :: ps, a :: as =>
+    if p.kind = .kwOnly then none
+    else (bindPos ps as).map fun (b, rest) => ((p.name, .given a) :: b, rest)
+
+/-- keyword arguments bind an unbound parameter of that name that is not positional-only (`none`:
+    `TypeError` – unknown keyword, or a value for a parameter that is already bound) -/
+def bindKw {α} (rest : Sig) : List (String × α) → Option (List (String × Arg α) × Sig)
+  | [] => some ([], rest)
+  | (k, a) :: kws =>
+    match rest.find? (fun p => p.name == k && p.kind != .posOnly) with
+    | none => none
+    | some _ => (bindKw (rest.filter (fun q => q.name != k)) kws).map fun (b, r) => ((k, .given a) :: b, r)
+
+/-- every parameter left over takes its default (`none`: `TypeError`, a required one is missing) -/
+def bindDefaults {α} : Sig → Option (List (String × Arg α))
+  | [] => some []
+  | p :: ps =>
+    match p.dflt, bindDefaults ps with
+    | some d, some b => some ((p.name, .dflt d) :: b)
+    | _, _ => none
+
+/-- `f(*pos, **kw)`: the value every parameter receives -/
+def bindArgs {α} (sig : Sig) (pos : List α) (kw : List (String × α)) : Option (List (String × Arg α)) :=
+  match bindPos sig pos with
+  | none => none
+  | some (b1, rest) =>
+    match bindKw rest kw with
+    | none => none
+    | some (b2, rest) =>
+      match bindDefaults rest with
+      | none => none
+      | some b3 => some (b1 ++ b2 ++ b3)
+
+/-- the signature `geometry_validate(obj, mode="json", …)`: `obj` then `mode`, both passable by
+    position or by name, `mode` defaulting to `"json"`; anything after them has a default -/
+def gvSigOkB (sig : Sig) : Bool :=
+  match sig with
+  | p :: q :: extra =>
+    p == ⟨"obj", .posOrKw, none⟩ && q == ⟨"mode", .posOrKw, some "json"⟩ && extra.all (·.dflt.isSome)
+  | _ => false
+
+/-- the signature of a geometry class's constructor: keyword-only `type` (default: the class's tag)
+    and required keyword-only `coordinates`, in either order; anything else has a default -/
+def ctorSigOkB (tag : String) (sig : Sig) : Bool :=
+  match sig with
+  | p :: q :: extra =>
+    ((p == ⟨"type", .kwOnly, some tag⟩ && q == ⟨"coordinates", .kwOnly, none⟩) ||
+     (p == ⟨"coordinates", .kwOnly, none⟩ && q == ⟨"type", .kwOnly, some tag⟩)) &&
+    extra.all (·.dflt.isSome)
+  | _ => false
+
+/-- what a call hands over: the object and a mode string -/
+inductive GvArg
+  | obj (o : PyObj)
+  | mode (m : String)
+
+def Mode.ofString : String → Mode
+  | "json" => .json
+  | "dict" => .dict
+  | "attributes" => .attributes
+  | _ => .other
+
+/-- `geometry_validate(*pos, **kw)` under signature `sig`: bind, then run the body on what `obj` and
+    `mode` received (`none`: `TypeError` from the call itself, or an argument of the wrong sort –
+    never generated) -/
+def callGeometryValidate (tbl : Table) (sig : Sig) (pos : List GvArg) (kw : List (String × GvArg)) :
+    Option (R Obj) :=
+  match bindArgs sig pos kw with
+  | none => none
+  | some b =>
+    match b.lookup "obj", b.lookup "mode" with
+    | some (.given (.obj o)), some (.given (.mode m)) => some (geometryValidate tbl (Mode.ofString m) o)
+    | some (.given (.obj o)), some (.dflt m) => some (geometryValidate tbl (Mode.ofString m) o)
+    | _, _ => none
+
+/-- what a constructor call hands over -/
+inductive CtorArg
+  | type (t : String)
+  | coordinates (r : Raw)
+
+/-- `Cls(**kw)` under signature `sig` (pydantic models take keywords only) -/
+def callConstruct (c : Cls) (sig : Sig) (kw : List (String × CtorArg)) : Option (R Obj) :=
+  match bindArgs sig [] kw with
+  | none => none
+  | some b =>
+    match b.lookup "type", b.lookup "coordinates" with
+    | some (.given (.type t)), some (.given (.coordinates r)) => some (construct c (some t) (some r))
+    | some (.dflt _), some (.given (.coordinates r)) => some (construct c none (some r))
+    | _, _ => none
+
+/-! ### Histories: consecutive calls in one process
+
+    The code keeps no state between calls, so the model of a history is the list of the models of
+    its calls.  `runWith` is the general shape of a stateful implementation (a cache, a memo, a
+    leaked option): it threads a state; the code's step ignores and preserves it. -/
+
+/-- one call of any entry point, on the content the argument objects carry *at that moment* -/
+inductive Call
+  | construct (c : Cls) (type : Option String) (coordinates : Option Raw)
+  | classValidate (c : Cls) (fromAttributes : Bool) (src : Source)
+  | geometryValidate (mode : Mode) (obj : PyObj)
+  | union (src : Source)
+
+def Call.eval (tbl : Table) (members : List Cls) : Call → R Obj
+  | .construct c t r => SE.Validate.construct c t r
+  | .classValidate c fa src => SE.Validate.classValidate c fa src
+  | .geometryValidate m o => SE.Validate.geometryValidate tbl m o
+  | .union src => unionValidate members src
+
+/-- a process running calls one after the other with some state `σ` carried along -/
+def runWith {σ} (step : σ → Call → σ × R Obj) : σ → List Call → List (R Obj)
+  | _, [] => []
+  | s, c :: cs => let (s', r) := step s c; r :: runWith step s' cs
+
+/-- the code: stateless -/
+def history (tbl : Table) (members : List Cls) (calls : List Call) : List (R Obj) :=
+  runWith (σ := Unit) (fun s c => (s, c.eval tbl members)) () calls
+
 end SE.Validate
